@@ -123,7 +123,11 @@ impl EventLoop {
     pub fn clean(&mut self) {
         self.network = None;
         self.keepalive_timeout = None;
-        self.pending.extend(self.state.clean());
+        // what the state machine still holds was sent before anything that is left in
+        // `pending` from an interrupted replay: it goes in front to keep the order
+        let mut pending: VecDeque<Request> = self.state.clean().into();
+        pending.append(&mut self.pending);
+        self.pending = pending;
 
         // drain requests from channel which weren't yet received
         let mut requests_in_channel: Vec<_> = self.requests_rx.drain().collect();
